@@ -144,9 +144,18 @@ func firstOutDiff(full, got []drive.Out) string {
 
 // c07HighLengthBits: whether bit flips in the upper bytes of the attachment name/media-type length
 // fields are exercised (they make an unpatched reader allocate up to 4 GiB per flip - C10's finding).
-var c07HighLengthBits = false
+var c07HighLengthBits = true
+
+const c07Stripes = 6
 
 func checkC07Case(ctx *core.Ctx, i int, rep *core.Report) {
+	for s := 0; s < c07Stripes; s++ {
+		checkC07Job(ctx, i, s, rep)
+	}
+}
+
+// checkC07Job enumerates the byte positions congruent to stripe modulo c07Stripes.
+func checkC07Job(ctx *core.Ctx, i, stripe int, rep *core.Report) {
 	cf := prepareC07(ctx, i, rep)
 	if cf == nil {
 		return
@@ -157,8 +166,10 @@ func checkC07Case(ctx *core.Ctx, i int, rep *core.Report) {
 		comp = "none"
 	}
 	rep.Distinct(c.Shape.String(), c.K.String())
-	rep.Count("files_"+comp, 1)
-	r := gen.Rng(ctx.Seed, "c07m", i)
+	if stripe == 0 {
+		rep.Count("files_"+comp, 1)
+	}
+	r := gen.Rng(ctx.Seed, "c07m", i*c07Stripes+stripe)
 	nChunks := 0
 	for recIdx, rec := range cf.f.Recs {
 		if rec.Op != refmcap.OpChunk {
@@ -191,6 +202,9 @@ func checkC07Case(ctx *core.Ctx, i int, rep *core.Report) {
 		}
 		buf := make([]byte, len(cf.data))
 		for off := lo; off < hi; off++ {
+			if off%c07Stripes != stripe {
+				continue
+			}
 			for bit := 0; bit < 8; bit++ {
 				copy(buf, cf.data)
 				buf[off] ^= 1 << bit
@@ -201,7 +215,7 @@ func checkC07Case(ctx *core.Ctx, i int, rep *core.Report) {
 			}
 		}
 		// multi-byte overwrites and byte-range swaps
-		for k := 0; k < 40 && hi-lo > 4; k++ {
+		for k := 0; k < 42/c07Stripes && hi-lo > 4; k++ {
 			copy(buf, cf.data)
 			n := 1 + r.Intn(min(16, hi-lo-1))
 			a := lo + r.Intn(hi-lo-n+1)
@@ -238,6 +252,9 @@ func checkC07Case(ctx *core.Ctx, i int, rep *core.Report) {
 		mediaLenOff := nameLenOff + 4 + len(a.Name)
 		buf := make([]byte, len(cf.data))
 		for off := body; off < body+a.CRCEnd; off++ {
+			if off%c07Stripes != stripe {
+				continue
+			}
 			for bit := 0; bit < 8; bit++ {
 				if !c07HighLengthBits && ((off >= nameLenOff+2 && off < nameLenOff+4) || (off >= mediaLenOff+2 && off < mediaLenOff+4)) {
 					rep.Count("attachment_length_high_bit_flips_skipped", 1)
@@ -280,17 +297,17 @@ func checkC07Case(ctx *core.Ctx, i int, rep *core.Report) {
 		}
 		attOrdinal++
 	}
-	if i%3 == 0 {
+	if i%3 == 0 && stripe == 0 {
 		rep.Sample(map[string]any{"case": i, "shape": c.Shape.String(), "config": c.K.String(), "file_bytes": len(cf.data), "chunks": nChunks})
 	}
 }
 
 func RunC07(ctx *core.Ctx, rep *core.Report) {
 	rep.Level = "fault_enumeration"
-	rep.Rule = "CRC-enabled multi-chunk files (none/zstd/lz4 in rotation) written by the real Writer; for every chunk EVERY single-bit flip of EVERY byte of the stored records field (positions from the reference decoder), plus 40 seeded multi-byte overwrites / byte-range swaps per chunk, each read by NewLexer(ValidateChunkCRCs) with and without EmitInvalidChunks. " +
+	rep.Rule = "CRC-enabled multi-chunk files (none/zstd/lz4 in rotation) written by the real Writer; for every chunk EVERY single-bit flip of EVERY byte of the stored records field (positions from the reference decoder), plus 42 seeded multi-byte overwrites / byte-range swaps per chunk, each read by NewLexer(ValidateChunkCRCs) with and without EmitInvalidChunks. " +
 		"Oracle: output identical to the original, or the records yielded before the first report (error that does not wrap io.EOF, or invalid-chunk token) are exactly the original records preceding the damaged chunk. " +
 		"Attachments: every single-bit flip from log_time through the CRC field, read through a callback with ComputeAttachmentCRCs; accepted iff the callback is not reached, its read fails, content equals the original, or computed != stored CRC. distinct_nontrivial counts distinct files enumerated."
 	rep.Assumptions = []string{"record and field positions come from the reference decoder", "a CRC-32 collision would be reported as a violation (it is one); none is possible for single-bit flips of uncompressed chunks"}
 	n := ctx.Pick(12, 300)
-	core.Parallel(ctx, rep, n, func(i int) { checkC07Case(ctx, i, rep) })
+	core.Parallel(ctx, rep, n*c07Stripes, func(k int) { checkC07Job(ctx, k/c07Stripes, k%c07Stripes, rep) })
 }
